@@ -21,38 +21,27 @@ theorem adjustPrecomputed_eq (L1 : Lawful o1) (hr : ExpR G1) (pp : Params G1 G2 
 
 /-- `adjust_nondelegable(nondelegable_qualifykey(parent, A), parent, A, B)` equals
 `nondelegable_qualifykey(parent, B)`, component for component, for every parent key whose
-free-slot list is strictly ascending with indices below l, all well-formed A, B with
-`B.omitAll = false` (necessary, see `adjustNd_omitAll_counterexample`). -/
+free-slot list is strictly ascending with indices below l and all well-formed A, B — for both
+settings of `A.omitAll` and of `B.omitAll`. -/
 theorem adjustNd_eq (L1 : Lawful o1) (hr : ExpR G1) (parent : SecretKey G1 G2) (l : Nat)
     (hasc : parent.b.Pairwise (fun p q => p.1 < q.1)) (hlt : ∀ p ∈ parent.b, p.1 < l)
     (from_ to_ : AttrList)
-    (hf : from_.wellFormed l = true) (ht : to_.wellFormed l = true) (hom : to_.omitAll = false) :
+    (hf : from_.wellFormed l = true) (ht : to_.wellFormed l = true) :
     adjustNondelegable o1 (ndQualifykey o1 l parent from_) parent from_ to_
       = ndQualifykey o1 l parent to_ :=
-  Wk.adjustNd_eq L1 hr parent l hasc hlt from_ to_ hf ht hom
+  Wk.adjustNd_eq L1 hr parent l hasc hlt from_ to_ hf ht
 
 /-- the same for canonical parents under admissibility, landing on the canonical key. -/
 theorem adjustNd_canon (L1 : Lawful o1) (L2 : Lawful o2) (hr : ExpR G1) (pp : Params G1 G2 GT)
     (g2alpha : G1) (π : List Slot) (ρ : Nat) (from_ to_ : AttrList)
-    (hf : admissible π from_ = true) (ht : admissible π to_ = true) (hom : to_.omitAll = false) :
+    (hf : admissible π from_ = true) (ht : admissible π to_ = true) :
     adjustNondelegable o1
         (ndQualifykey o1 π.length (canon o1 o2 pp g2alpha π ρ) from_)
         (canon o1 o2 pp g2alpha π ρ) from_ to_
       = canon o1 o2 pp g2alpha (updatePattern π to_) ρ := by
   rw [Wk.adjustNd_eq L1 hr _ π.length (Wk.canon_b_ascB L1 L2 pp g2alpha π ρ)
-    (Wk.canon_b_lt L1 L2 pp g2alpha π ρ) from_ to_ (Wk.admissible_wf hf) (Wk.admissible_wf ht) hom]
+    (Wk.canon_b_lt L1 L2 pp g2alpha π ρ) from_ to_ (Wk.admissible_wf hf) (Wk.admissible_wf ht)]
   exact Wk.ndQualify_canon L1 L2 pp g2alpha π ρ to_ ht
-
-/-- FINDING (faithful to api.cpp, which never reads `to.omitAllFromKeysUnlessPresent` in
-`adjust_nondelegable`): with `to_.omitAll = true` the adjusted key keeps the parent's free slots
-that `nondelegable_qualifykey` drops.  Parent with free slots 0 and 1, A = B = empty list,
-B.omitAll = true: adjusted key has 2 free slots, directly qualified key has none. -/
-theorem adjustNd_omitAll_counterexample :
-    let parent : SecretKey ℤ ℤ := ⟨0, 0, false, 0, [(0, 5), (1, 6)]⟩
-    (adjustNondelegable (stdOps ℤ) (ndQualifykey (stdOps ℤ) 2 parent ⟨[], false⟩) parent
-        ⟨[], false⟩ ⟨[], true⟩).b.length = 2
-      ∧ (ndQualifykey (stdOps ℤ) 2 parent ⟨[], true⟩).b.length = 0 := by
-  decide
 
 /-! ### Non-vacuity -/
 
@@ -69,9 +58,19 @@ example (ρ : Nat) :
         ⟨[⟨0, 42, false⟩, ⟨1, 8, false⟩], false⟩
       = canon ops ops pp g2alpha [.fixed 42, .fixed 8, .hidden] ρ := by
   have h := adjustNd_canon lawful lawful expR pp g2alpha [.fixed 42, .free, .hidden] ρ al1
-    ⟨[⟨0, 42, false⟩, ⟨1, 8, false⟩], false⟩ al1_ok (by decide) rfl
+    ⟨[⟨0, 42, false⟩, ⟨1, 8, false⟩], false⟩ al1_ok (by decide)
   rw [show updatePattern [Slot.fixed 42, .free, .hidden] ⟨[⟨0, 42, false⟩, ⟨1, 8, false⟩], false⟩
     = [.fixed 42, .fixed 8, .hidden] by decide] at h
   exact h
+
+/-- the instance on which the two sides used to differ (before `adjust_nondelegable` honoured
+`to.omitAllFromKeysUnlessPresent`): parent with free slots 0 and 1, A = B = empty list,
+`B.omitAll = true`.  Both sides now drop the parent's free slots. -/
+example :
+    let parent : SecretKey ℤ ℤ := ⟨0, 0, false, 0, [(0, 5), (1, 6)]⟩
+    (adjustNondelegable (stdOps ℤ) (ndQualifykey (stdOps ℤ) 2 parent ⟨[], false⟩) parent
+        ⟨[], false⟩ ⟨[], true⟩).b.length = 0
+      ∧ (ndQualifykey (stdOps ℤ) 2 parent ⟨[], true⟩).b.length = 0 := by
+  decide
 
 end Jedi.C14
